@@ -132,7 +132,9 @@ func GenSrvHistory(r *rand.Rand, cfg *SrvGenCfg) []SEv {
 				op.Op = spb.AFTOperation_DELETE
 			default:
 				if r.IntN(3) == 0 {
-					op.Op = spb.AFTOperation_INVALID
+					// an operation type the server does not implement: the named INVALID value or
+					// an enum number outside the defined range (proto3 enums are open)
+					op.Op = []spb.AFTOperation_Operation{spb.AFTOperation_INVALID, 4, 99}[r.IntN(3)]
 				} else {
 					op.Op = spb.AFTOperation_ADD
 				}
@@ -182,7 +184,7 @@ func GenSrvHistory(r *rand.Rand, cfg *SrvGenCfg) []SEv {
 				op.ElectionId = proto.Clone(stamp).(*spb.Uint128)
 			}
 			isPrimary := max != nil && s.last != nil && cmp128(s.last, max) == 0
-			if c1 == "" && isPrimary && stamp != nil && s.last != nil && cmp128(stamp, s.last) == 0 && op.Op != spb.AFTOperation_INVALID && sh.knownNI(p, op.NetworkInstance) {
+			if c1 == "" && isPrimary && stamp != nil && s.last != nil && cmp128(stamp, s.last) == 0 && (op.Op == spb.AFTOperation_ADD || op.Op == spb.AFTOperation_REPLACE || op.Op == spb.AFTOperation_DELETE) && sh.knownNI(p, op.NetworkInstance) {
 				sh.note(op)
 			}
 			req.Operation = append(req.Operation, op)
@@ -329,6 +331,9 @@ func GenSrvHistory(r *rand.Rand, cfg *SrvGenCfg) []SEv {
 				}
 			case r.IntN(5) == 0:
 				id = max
+			case s.last != nil && r.IntN(4) == 0:
+				// repeat the id this session announced last (a reconnect-style re-announcement)
+				id = s.last
 			default:
 				id = inc128(max, uint64(1+r.IntN(3)))
 			}
